@@ -464,7 +464,46 @@ def superset_merged(T):
             for b in ks:
                 if a != b and a < b:
                     return True
+    # The same replacement when the precedence directives have resolved away the only transition that carried the larger
+    # kernel (`s = s "y" s | s "y" s "y" | ...; @left "y" <s = s "y" s>`: the shift on "y" out of {s -> s y s., s -> s y s.y, ...} is
+    # resolved to a reduction, so the superset state is entered with the smaller kernel only): the state then REDUCES by a
+    # production that is complete in no item of its kernel's closure but is complete in a kernel K of the grammar's LR(0)
+    # collection that strictly contains the kernel it is entered with - it behaves as the superset state K (and the
+    # state it replaced is no longer reachable).
+    collection = lr0_kernels(prods, closure)
+    if reachable_states(T) >= len(collection):
+        return False                      # the replaced state is left behind unreachable: fewer states are in use than LR(0) kernels exist
+    reduces = {}
+    for (st, a), (kind, q) in T.action.items():
+        if kind == "REDUCE":
+            reduces.setdefault(st, set()).add((q + 1, len(prods[q + 1][1])))
+    for n, ks in kernels.items():
+        rs = reduces.get(n, set())
+        for k in ks:
+            extra = rs - closure(k)
+            if extra and any(k < K and rs <= closure(K) for K in collection):
+                return True
     return False
+
+
+def lr0_kernels(prods, closure):
+    """The kernels of the LR(0) collection of the augmented grammar."""
+    start = frozenset([(0, 0)])
+    seen = {start}
+    work = [start]
+    while work:
+        k = work.pop()
+        by = {}
+        for p, d in closure(k):
+            body = prods[p][1]
+            if d < len(body):
+                by.setdefault(tuple(body[d]), set()).add((p, d + 1))
+        for nk in by.values():
+            nk = frozenset(nk)
+            if nk not in seen:
+                seen.add(nk)
+                work.append(nk)
+    return seen
 
 
 def reachable_states(T):
@@ -482,7 +521,7 @@ def reachable_states(T):
     return len(seen)
 
 
-def language_difference(T, sp, maxlen=6, budget=4000):
+def language_difference(T, sp, maxlen=9, budget=4000):
     """A terminal string on which the dumped table (driver mirror) and the grammar (exact Earley) disagree, if any."""
     import itertools
     from . import docgrammar as D
